@@ -497,6 +497,30 @@ impl Bundle for Padding {
 pub mod verif {
     pub use crate::bit_writer::BitWriter;
 
+    /// A reconstruction header that contains only the given APPn marker records
+    /// (`ty`, `length`) - exactly the values `AppMarker::parse` can produce are meaningful:
+    /// `ty` in 0..=7 and `length` in 1..=65536.
+    pub fn header_with_app_markers(app_markers: Vec<(u32, u32)>) -> crate::JpegBitstreamHeader {
+        crate::JpegBitstreamHeader {
+            is_gray: false,
+            markers: Vec::new(),
+            app_markers: app_markers
+                .into_iter()
+                .map(|(ty, length)| crate::AppMarker { ty, length })
+                .collect(),
+            com_lengths: Vec::new(),
+            quant_tables: Vec::new(),
+            components: Vec::new(),
+            huffman_codes: Vec::new(),
+            scan_info: Vec::new(),
+            restart_interval: 0,
+            scan_more_info: Vec::new(),
+            intermarker_lengths: Vec::new(),
+            tail_data_length: 0,
+            padding_bits: None,
+        }
+    }
+
     /// Builds the canonical code of a DHT-style table (`counts[len]` codes of length `len`,
     /// `values` in code order, the last value being the sentinel) and looks `symbol` up:
     /// `Ok((length, left-aligned code bits))` or `Err(())` when the symbol has no code.
